@@ -337,6 +337,47 @@ partial def hasFuzzy0 : SExp → Bool
   | .list [.atom "b", .atom _, .list ms, .list ss, .list ns] => (ms ++ ss ++ ns).any hasFuzzy0
   | _ => false
 
+/-- an open-ended date range whose open end faces a stored value within 2^52 ns of that end of the int64
+time line (the open end must be `MinInt64` / `MaxInt64`, not the image of ±Inf under the float coding) -/
+partial def openDateBeyond (idx : Index) : Query → Bool
+  | .numRange f lo hi =>
+    f == "d" && idx.any fun e => (e.2.numsOf f).any fun v =>
+      (hi ≥ int64Max - 1 && v > int64Max - 4503599627370496 && lo ≤ v && v ≤ hi) ||
+      (lo ≤ int64Min + 1 && v < int64Min + 4503599627370496 && lo ≤ v && v ≤ hi)
+  | .bool ms ss ns _ => (ms ++ ss ++ ns).any (openDateBeyond idx)
+  | _ => false
+
+/-- the lists of the unadorned leaves of a plan -/
+partial def unadornedLists : Plan → List (List Nat)
+  | .leaf .unadorned l => [l]
+  | .leaf _ _ => []
+  | .conj ps => ps.flatMap unadornedLists
+  | .disj ps _ => ps.flatMap unadornedLists
+  | .bool m s n _ =>
+    (match m with | some p => unadornedLists p | none => []) ++ (match s with | some p => unadornedLists p | none => []) ++
+    (match n with | some p => unadornedLists p | none => [])
+  | .filt p _ => unadornedLists p
+  | .phrase p _ => unadornedLists p
+
+/-- the set expression of every sub-plan -/
+partial def allDens (bound : Nat) (p : Plan) : List (List Nat) :=
+  p.den bound :: (match p with
+    | .leaf _ _ => []
+    | .conj ps => ps.flatMap (allDens bound)
+    | .disj ps _ => ps.flatMap (allDens bound)
+    | .bool m s n _ =>
+      (match m with | some p => allDens bound p | none => []) ++ (match s with | some p => allDens bound p | none => []) ++
+      (match n with | some p => allDens bound p | none => [])
+    | .filt p _ => allDens bound p
+    | .phrase p _ => allDens bound p)
+
+partial def hasRangeOrGeo : Query → Bool
+  | .numRange _ _ _ => true
+  | .geoBox _ _ _ _ _ => true
+  | .geoDist _ _ _ _ => true
+  | .bool ms ss ns _ => (ms ++ ss ++ ns).any hasRangeOrGeo
+  | _ => false
+
 def runQuery (st : DState) (mode : String) (e : SExp) (impl0 : String) : String :=
   -- "<ids> !fresh=<ids>": the harness found that a history-free reference reader answers differently
   let parts := impl0.splitOn " !fresh="
@@ -368,6 +409,7 @@ def runQuery (st : DState) (mode : String) (e : SExp) (impl0 : String) : String 
         | none => true
       let br := " br=" ++ ",".intercalate (kinds ++ (if sn.isSome then ["seg-machine"] else ["no-layout"]) ++
                   (if agree then [] else ["MODEL-LEAVES-DISAGREE"]) ++ (if q.WF then [] else ["not-wf"]) ++
+                  (if openDateBeyond idx q then ["open-date-range-with-value-beyond-2^63-2^52"] else []) ++
                   (if outcome == .panic then ["expect-panic"] else []) ++ (if variant.isEmpty then [] else [variant]))
       let plan0 := compile idx q.norm
       if !agree then
@@ -710,7 +752,7 @@ partial def geoLeaves : Query → List Query
   | .bool ms ss ns _ => (ms ++ ss ++ ns).flatMap geoLeaves
   | _ => []
 
-def traceStep (st : DState) (qe : Option SExp) (impl : String) : String :=
+def traceStep (st : DState) (mode : String) (qe : Option SExp) (impl : String) : String :=
   match st.layout with
   | none => impl ++ sep ++ "na br=replay-no-layout"
   | some l =>
@@ -731,13 +773,37 @@ def traceStep (st : DState) (qe : Option SExp) (impl : String) : String :=
             | none => none
           let c : ReplayCtx := { sn := layoutSn l, idx := idx, bound := st.bound, events := events, geoAcc := geoAcc }
           let results := root.all.map (replayNode c)
-          let errs := results.filterMap (·.1) ++ narrowingErrors c root false
+          -- score none: the unadorned leaves of the real tree hold exactly what the model's rewrite computes
+          -- (the OR / AND of the per-segment postings of the rewritten children)
+          let unadornedErr : List String :=
+            if mode != "none" then [] else
+            match qe.bind parseQuery with
+            | some (q, _) =>
+              if hasRangeOrGeo q then [] else
+              -- (the real dictionary may still hold terms of deleted documents, so the real code can rewrite a
+              -- disjunction the model sees as a single term: compare with the set of EVERY model sub-plan)
+              let plan0 := compile idx q.norm
+              let cands := allDens st.bound plan0 ++ unadornedLists (plan0.rewriteNone ⟨true⟩ st.bound).1
+              let realLs : List (List Nat) := root.all.filterMap fun t =>
+                match t.kind, t.args with
+                | "term", "u" :: _ :: _ :: segsS =>
+                  match segsS.mapM parseSegIt with
+                  | some its => if its.length != c.sn.length then none else
+                      some ((c.sn.zip its).flatMap fun (e, x) => x.2.toList.map (· + e.1))
+                  | none => none
+                | _, _ => none
+              match realLs.find? (fun l => !cands.contains l) with
+              | some l => [s!"unadorned-leaf-holds-{l}-which-is-the-set-of-no-sub-plan-of-the-model"]
+              | none => []
+            | none => []
+          let errs := results.filterMap (·.1) ++ narrowingErrors c root false ++ unadornedErr
           let brs := (results.flatMap (·.2)).eraseDups
           -- the documents the collector received are the answers of the root
           let top := (c.evs 0).filterMap (·.2)
           let nums := if numsS == "-" then [] else (numsS.splitOn ",").filterMap (·.toNat?)
           let topOk := sortNat top == sortNat nums
-          let br := " br=" ++ ",".intercalate (["replay"] ++ brs)
+          let br := " br=" ++ ",".intercalate (["replay"] ++ brs ++
+            (if mode == "none" && brs.contains "replay-leaf-unadorned" then ["replay-unadorned-contents-checked"] else []))
           if brs.contains "WRONG-DISJUNCTION-KIND" then
             -- a break of the correspondence (model constant vs real tree), not a verdict on the implementation
             "replay-mismatch disjunction-kind-differs-from-the-takeover-constant-of-the-model" ++ sep ++ "na" ++ br
@@ -782,10 +848,11 @@ def c07step (st : DState) (op : String) (impl : String) : DState × String :=
   match ws with
   | "case" :: _ => (DState.empty, "ok" ++ sep ++ "na")
   | ["snap"] => snapStep st impl
+  | ["waitmerge"] => (st.flush, "ok" ++ sep ++ "na")
   | "trace" :: mode :: _ =>
     let rest := (op.drop (6 + mode.length + 1)).toString
     let qe := match parseSExp (tokenize rest) with | some (e, []) => some e | _ => none
-    (st, traceStep st qe impl)
+    (st, traceStep st mode qe impl)
   | ["seg"] => (st.flush, "ok" ++ sep ++ "na")
   | "ins" :: id :: fs => ({ st with pendAdd := parseDoc id fs :: st.pendAdd }, "ok" ++ sep ++ "na")
   | "upd" :: id :: fs => ({ st with pendDel := id :: st.pendDel, pendAdd := parseDoc id fs :: st.pendAdd }, "ok" ++ sep ++ "na")
